@@ -11,11 +11,12 @@ pub enum Sty {
     Char,
     Int { signed: bool, bits: u32 },
     Enum,
+    Uuid,
 }
 
 pub const COLOR_WIRE: [&str; 3] = ["Red", "green", "dark-blue"];
 
-pub const SCALARS: [(&str, Sty); 14] = [
+pub const SCALARS: [(&str, Sty); 15] = [
     ("str", Sty::Str),
     ("u8", Sty::Int { signed: false, bits: 8 }),
     ("u16", Sty::Int { signed: false, bits: 16 }),
@@ -30,6 +31,7 @@ pub const SCALARS: [(&str, Sty); 14] = [
     ("bool", Sty::Bool),
     ("char", Sty::Char),
     ("enum", Sty::Enum),
+    ("uuid", Sty::Uuid),
 ];
 
 impl Sty {
@@ -40,6 +42,7 @@ impl Sty {
             Sty::Char => "TChar".into(),
             Sty::Int { signed, bits } => format!("(TInt {} {})", signed, bits),
             Sty::Enum => format!("(TEnum {})", g_list(&COLOR_WIRE, |s| g_str(s))),
+            Sty::Uuid => "TUuid".into(),
         }
     }
     /// the `Default` value of the Rust type
@@ -50,6 +53,7 @@ impl Sty {
             Sty::Char => Sv::Char(0),
             Sty::Int { .. } => Sv::Int("0".into()),
             Sty::Enum => Sv::Enum("Red".into()),
+            Sty::Uuid => Sv::Uuid("00000000-0000-0000-0000-000000000000".into()),
         }
     }
     pub fn is_128(&self) -> bool {
@@ -106,14 +110,18 @@ pub fn g_sv(v: &Sv) -> String {
         Sv::Char(c) => format!("(VChar {})", c),
         Sv::Int(d) => format!("(VInt {})", g_z(d)),
         Sv::Enum(n) => format!("(VEnum {})", g_str(n)),
+        Sv::Uuid(h) => {
+            let hex: String = h.chars().filter(|c| *c != '-').collect();
+            let bytes: Vec<u8> = (0..16).map(|i| u8::from_str_radix(&hex[2 * i..2 * i + 2], 16).unwrap_or(0)).collect();
+            format!("(VUuid {})", g_bytes(&bytes))
+        }
     }
 }
 pub fn g_fv(v: &Fv) -> String {
     match v {
         Fv::One(x) => format!("(FvOne {})", g_sv(x)),
         Fv::Opt(o) => format!("(FvOpt {})", g_opt(o, g_sv)),
-        Fv::Seq(l) => format!("(FvSeq {})", g_list(l, |s| g_str(s))),
-        Fv::Nums(l) => format!("(FvSeq {})", g_list(l, |s| g_str(s))),
+        Fv::Seq(l) => format!("(FvSeq {})", g_list(l, g_sv)),
     }
 }
 pub fn g_struct(fields: &[(String, Fv)]) -> String {
@@ -136,7 +144,7 @@ pub enum Pres {
 #[derive(Clone, Debug)]
 pub enum Kind {
     Scalar(Sty, Pres),
-    Seq,
+    Seq(Sty),
 }
 pub type Spec = Vec<(String, Kind)>;
 pub fn g_spec(sp: &Spec) -> String {
@@ -151,7 +159,7 @@ pub fn g_spec(sp: &Spec) -> String {
                     Pres::Def(d) => format!("(PDef {})", g_sv(d)),
                 }
             ),
-            Kind::Seq => "KSeq".to_string(),
+            Kind::Seq(t) => format!("(KSeq {})", t.coq()),
         };
         format!("({}, {})", g_str(n), k)
     })
@@ -230,6 +238,23 @@ pub fn gen_value(rng: &mut Rng, t: Sty, for_path: bool) -> Sv {
         },
         Sty::Int { signed, bits } => Sv::Int(gen_int(rng, signed, bits).dec()),
         Sty::Enum => Sv::Enum(rng.pick(&COLOR_WIRE).to_string()),
+        Sty::Uuid => {
+            let b: [u8; 16] = match rng.below(6) {
+                0 => [0; 16],
+                1 => [0xff; 16],
+                2 => [0x00, 0x11, 0x22, 0x33, 0x44, 0x55, 0x66, 0x77, 0x88, 0x99, 0xaa, 0xbb, 0xcc, 0xdd, 0xee, 0xff],
+                _ => {
+                    let (a, c) = (rng.next().to_be_bytes(), rng.next().to_be_bytes());
+                    let mut b = [0u8; 16];
+                    b[..8].copy_from_slice(&a);
+                    b[8..].copy_from_slice(&c);
+                    b
+                }
+            };
+            let h: Vec<String> = b.iter().map(|x| format!("{:02x}", x)).collect();
+            let h = h.concat();
+            Sv::Uuid(format!("{}-{}-{}-{}-{}", &h[0..8], &h[8..12], &h[12..16], &h[16..20], &h[20..32]))
+        }
     }
 }
 
@@ -241,6 +266,35 @@ pub fn gen_text(rng: &mut Rng, v: &Sv, tags: &mut Vec<String>) -> String {
         Sv::Bool(b) => b.to_string(),
         Sv::Char(c) => char::from_u32(*c).unwrap().to_string(),
         Sv::Enum(n) => n.clone(),
+        Sv::Uuid(h) => {
+            // hyphenated / simple / braced / urn, hex digits in either case
+            let body = match rng.below(4) {
+                0 => h.clone(),
+                1 => {
+                    tags.push("uuid:upper-case".into());
+                    h.to_ascii_uppercase()
+                }
+                _ => h
+                    .chars()
+                    .map(|c| if rng.chance(1, 2) { c.to_ascii_uppercase() } else { c })
+                    .collect(),
+            };
+            match rng.below(6) {
+                0 => {
+                    tags.push("uuid:simple".into());
+                    body.replace('-', "")
+                }
+                1 => {
+                    tags.push("uuid:braced".into());
+                    format!("{{{}}}", body)
+                }
+                2 => {
+                    tags.push("uuid:urn".into());
+                    format!("urn:uuid:{}", body)
+                }
+                _ => body,
+            }
+        }
         Sv::Int(d) => match rng.below(8) {
             0 if !d.starts_with('-') => {
                 tags.push("int:leading-plus".into());
